@@ -504,6 +504,10 @@ def gen_rank(rng: random.Random, cfg: GenCfg, rank: int) -> RankTrace:
         ev = sim.dev("kernel", rng.choice(K_COMP + K_COMM), s, st, d, sim.next_corr(), queued=0)
         if rng.random() < cfg.p_nocorr_head:
             del ev["args"]["correlation"]
+            if cfg.p_nocorr_launch > 0 and rng.random() < 0.5:      # ... and it is a copy (bandwidth series: a copy needs no id to count)
+                ev["cat"], ev["name"] = "gpu_memcpy", rng.choice(K_MEMCPY)
+                del ev["args"]["queued"]
+                ev["args"].update({"bytes": 1024, "memory bandwidth (GB/s)": rng.choice([1, 2, 4]) / 4.0})
         sim.last_end[s] = st + d
         tt = st
     threads = [sim.main_thread(main_tid)]
